@@ -367,6 +367,12 @@ Theorem oracle_queries_preserved :
 Proof. exact oracle_values_preserved_lemma. Qed.
 Print Assumptions oracle_queries_preserved.
 
+(** after PrepForZeroHeightGenesis (running feeds moved to the paused queue) the state is again a reachable-looking
+    one: the theorems above apply to it *)
+Theorem oracle_prep_keeps_invariant : forall s : state, invb s = true -> invb (prep s) = true.
+Proof. exact oracle_prep_inv_lemma. Qed.
+Print Assumptions oracle_prep_keeps_invariant.
+
 Example oracle_nonvacuous :
   invb wit_s = true /\ import true wit_env (export wit_env wit_s) <> None
   /\ values_of wit_s 0 = [(4, 1700000020); (3, 1700000010)].
